@@ -23,9 +23,9 @@ func TestC32(t *testing.T) {
 		"then the remaining validators) for all 10 approval-gated methods; (b) random histories mixing requests, single approvals, full rounds with noise, " +
 		"quits, blacklisting and epoch changes over the four governance contracts. Every operation is one evaluation; a case is distinct by " +
 		"(method, #validators under both readings, approvals counted lower/upper under both readings, pending state, caller class, verdict class, observed effect)")
-	cfg := govmodel.Config{Property: "C32", Histories: r.N(200, 3000), Ops: r.N(70, 110), MinN: minN, MaxN: maxN,
+	cfg := govmodel.Config{Property: "C32", Histories: r.N(200, 10000), Ops: r.N(70, 110), MinN: minN, MaxN: maxN,
 		Wt:      govmodel.Weights{Node: 2, SideChain: 2, Relayer: 1, Neo3: 1, SecondRound: 8},
-		Scripts: govmodel.ThresholdScripts(), ScriptReps: r.N(14, 110), RealSig: true}
+		Scripts: govmodel.ThresholdScripts(), ScriptReps: r.N(14, 220), RealSig: true}
 	govmodel.Run(r, cfg)
 
 	for _, k := range govmodel.ApproveKinds() {
